@@ -142,11 +142,13 @@ pub struct Codec {
     pub heavy_budget: u32,
     pub nt_seen: HashSet<u64>,
     pub shapes: HashSet<(u32, u32)>,
+    pub sampled: u32,
+    pub sampled_rt: u32,
 }
 
 impl Codec {
     pub fn new(heavy_budget: u32) -> Self {
-        Codec { tally: Tally::default(), violations: 0, heavy_budget, nt_seen: HashSet::new(), shapes: HashSet::new() }
+        Codec { tally: Tally::default(), violations: 0, heavy_budget, nt_seen: HashSet::new(), shapes: HashSet::new(), sampled: 0, sampled_rt: 0 }
     }
     pub fn give_up(&self) -> bool {
         self.violations >= 25
@@ -257,6 +259,13 @@ impl Codec {
             }
             if !m.is_empty() {
                 self.nontrivial(ctx, "rt", &enc, bf as u64);
+            }
+            if m.0.len() >= 3 && enc.len() < 40 && self.sampled_rt < 2 {
+                self.sampled_rt += 1;
+                ctx.sample_by_kind(
+                    &format!("codec:roundtrip:bf{}", bf),
+                    json!({"origin": origin, "set_ranges": m.0.iter().take(12).collect::<Vec<_>>(), "set_len": m.len(), "bf": bf, "encoding": hex(&enc), "agreed": "decode(encode(s)) == s, specification decode == s, remainder exact"}),
+                );
             }
             let h = (enc[0] >> 2) & 31;
             self.shapes.insert((BF[(enc[0] & 3) as usize], h as u32));
@@ -399,6 +408,15 @@ impl Codec {
                 }
                 if *nodes >= 2 {
                     self.nontrivial(ctx, "dec", &data[..*consumed], ((bias as u64) << 32) | max as u64);
+                }
+                if *nodes >= 4 && members.0.len() >= 2 && !rest.is_empty() && self.sampled < 2 {
+                    self.sampled += 1;
+                    ctx.sample_by_kind(
+                        &format!("codec:decode:{}", origin),
+                        json!({"bytes": hex(&data[..data.len().min(48)]), "bf": b, "height": h, "bias": bias, "max": max, "tree_nodes": nodes,
+                               "members_ranges": members.0.iter().take(12).collect::<Vec<_>>(), "members_len": members.len(), "unread_bytes": rest.len(),
+                               "agreed": "library == specification algorithm (members and remainder)"}),
+                    );
                 }
                 self.shapes.insert((b, h));
             }
